@@ -28,6 +28,15 @@ def roundTripOK (registered custom registered2 custom2 : Obj) : Option String :=
   else if !(keys custom).all (fun k => (keys registered).contains k || lookup custom2 k == lookup custom k) then some "custom-not-lossless"
   else none
 
+/-- a document with ONE registered member in an unsupported form: the decoder answers with an error,
+    or (zero value for that member) every OTHER registered member it decodes is the document's -/
+def badMemberOK (doc : Obj) (bad : String) (decoded : Option Obj) : Option String :=
+  match decoded with
+  | none => none
+  | some reg2 =>
+    if (keys reg2).all (fun k => k == bad || lookup doc k == lookup reg2 k) && !(keys reg2).contains bad
+    then none else some "value-not-in-document"
+
 /-- tolerant decoding, stated from the DOCUMENT's point of view: each documented form yields exactly
     the value in the document; anything else yields an error or the zero value; never a panic. -/
 def audienceOK (doc : JIn) (obs : Out (List String)) : Bool :=
